@@ -58,8 +58,12 @@ func runC10(c *core.Ctx) {
 	h.takeSnapshotOrder("C10.5 take-snapshot-order")
 	c.Clause("C10.6 followers flush before acknowledging; leader flushes before advancing")
 	h.followerFlushBeforeAck("C10.6a follower-flush")
+	h.commitBeforeStructureChange("C10.6c log-commit")
+	h.segmentSyncProtocol("C10.6d log-sync-protocol")
+	h.segmentWalks("C10.6e log-segment-walks")
 	h.leaderFlushBeforeAdvance("C10.6b leader-flush")
 	c.Clause("C10.7 state rebuilt from snapshot meta and log on open; FSM restored before the snapshot index is trusted")
 	h.openStorageRebuild("C10.7a restart-rebuild")
+	h.openStorageLoads("C10.9 restart-loads", "identity", "term", "last")
 	h.servePrologue("C10.7b serve-prologue")
 }
